@@ -139,6 +139,15 @@ def analyse():
                 else:
                     bad_set = True
             raw = bool(re.search(r"regs_ptr|self\.registers|registers\[", b))
+            # the frame base handed to anything but the two macros (a helper that may read or write
+            # registers on the arm's behalf): nothing is assumed about what that does.  capture_upvalue
+            # only records a register's address (runtime/src/vm/closures.rs)
+            rest = re.sub(r"reg_get!\([^;]*?\)\s*[;.,)\n]", "", b)
+            rest = re.sub(r"reg_set!\(\s*[^,]*?,", "", rest)
+            rest = re.sub(r"let (?:mut )?\w+(?:\s*:\s*usize)? = base \+ \w+ as usize(?: \+ \d+)?;", "", rest)
+            rest = re.sub(r"self\.capture_upvalue\(base, ", "", rest)
+            if not any(x in hand for x in bs) and re.search(r"\bbase\b", rest):
+                raw = True
             # ip = (ip as isize + imm as isize) as usize;  at brace depth 0 of the arm = always taken
             jump = "JNone"
             REL = r"\(ip as isize \+ \w+ as isize\) as usize"
